@@ -8,8 +8,8 @@ package main
 // except to fail the run when a rule has gone blind.
 
 import (
-	"encoding/json"
 	"bytes"
+	"encoding/json"
 	"fmt"
 	"io/fs"
 	"os"
